@@ -20,9 +20,10 @@ def denote (env : PathEnv) (cwd s : String) : String :=
   else if s == "~" || Py.startsWith s "~/" then env.resolve (purePath (expandHome env s))
   else env.resolve (pathJoin cwd s)
 
-/-- spellings whose denotation is defined by the path alone (not `$VAR`, `~user`, URLs) -/
+/-- spellings of a redirect target whose denotation is defined by the path alone (not `$VAR`, `~user`); a target that
+    looks like a URL is a path like any other -/
 def pathSpelling (s : String) : Prop :=
-  classifyToken s = .absolute ∨ classifyToken s = .home ∨ classifyToken s = .relative ∨ classifyToken s = .bare
+  classifyToken s true = .absolute ∨ classifyToken s true = .home ∨ classifyToken s true = .relative ∨ classifyToken s true = .bare
 
 /-- a redirect target is normalised to the file it denotes (after dropping trailing slashes) -/
 theorem normalizePath_denotes (env : PathEnv) (cwd s : String)
@@ -32,8 +33,7 @@ theorem normalizePath_denotes (env : PathEnv) (cwd s : String)
   generalize Py.rstripChars s ['/'] = t at hs ⊢
   unfold pathSpelling at hs
   unfold classifyToken at hs ⊢
-  by_cases h1 : Py.containsSub t "://" = true
-  · simp [h1] at hs
+  have h1 : (Py.containsSub t "://" && !true) = false := by simp
   · by_cases h2 : Py.startsWith t "$" = true
     · simp [h1, h2] at hs
     · by_cases h3 : Py.startsWith t "/" = true
@@ -61,6 +61,7 @@ theorem command_word_denotes (env : PathEnv) (cwd w : String)
     expandToken env w cwd false = denote env cwd w := by
   unfold expandToken denote resolveAbs
   unfold classifyToken at hw ⊢
+  simp only [Bool.not_false, Bool.and_true] at hw ⊢
   by_cases h1 : Py.containsSub w "://" = true
   · simp [h1] at hw
   · by_cases h2 : Py.startsWith w "$" = true
